@@ -226,9 +226,10 @@ PROPS = {
     ),
     "C14": dict(
         level="model_checking",
-        level_text="Kani contract harnesses: single SCT entry (u16 prefix, version, 32-byte log id by pointer, be64 timestamp over the full range, u16 extensions, hash/signature bytes, u16 signature, exact consumption; a field cut off by the entry length never yields an SCT) on inputs <= 52 bytes; list framing (u16 total, confinement, entry longer than the list / list longer than the input never yields an SCT) on short inputs. Bounded in input length; the n-entry in-order clause rests on the many0 shim contract (Kani shim_many0).",
-        level_note="Bounded model checking, not proof. Lists with >= 1 well-formed SCT (>= 49 bytes each) are beyond what CBMC finishes for the list parser; in-order decoding of n entries follows from the single-entry contract + nom many0/map_parser contracts (shim harnesses), not from a run.",
-        technique="contract harnesses on the real code, Kani/CBMC, bounded length",
+        level_text="Framing, unbounded (Verus, unit sct, on the real closure-free bodies): the single-SCT parser is the content parser's verdict on EXACTLY the declared u16 window, consuming exactly one length-prefixed entry; the list parser is the explicit accumulate-while-Ok loop of the single-entry parser over EXACTLY the declared list window (entries in wire order, an entry or list longer than its container never yields an SCT). Content decode: Kani contract harness - single SCT entry (u16 prefix, version, 32-byte log id by pointer, be64 timestamp over the full range, u16 extensions, hash/signature bytes, u16 signature, exact consumption; a field cut off by the entry length never yields an SCT) on inputs <= 52 bytes; list framing (u16 total, confinement, entry longer than the list / list longer than the input never yields an SCT) on short inputs. Bounded in input length; the n-entry in-order clause rests on the many0 shim contract (Kani shim_many0).",
+        level_note="The field-by-field decode of one SCT is bounded model checking (input <= 52 bytes), not proof; the framing/ordering part is a Verus proof relative to the nom shim contracts (map_parser, length_data, take, many0, complete: Kani shim_* harnesses, bounded) and to 'fun_of(parse_ct_signed_certificate_timestamp) is the function it computes'. R11 (operand of `?` bound to a local) is applied to the list parser.",
+        technique="contract-based deductive verification: Verus on the extracted entry/list framing (unbounded) + Kani contract harness for the SCT content decode (bounded)",
+        verus=["sct"],
         kani=[dict(quick=["leaf_sct_entry", "leaf_sct_list_tiny", "shim_many0", "shim_map_parser", "shim_length_data"], thorough=["leaf_sct_list_short"], timeout=900, timeout_thorough=2400)],
         explanation="see level_text",
     ),
